@@ -450,6 +450,26 @@ def replay(pid, path):
             for d in r["dis"]:
                 print("DISAGREEMENT:", d)
         return bad
+    st = str(v["case"].get("stream", ""))
+    if st.startswith("c10-removal") and "spec" in v["case"]:
+        d = _hp.c10_removal_differs(v["case"]["spec"], v["case"]["params"])
+        print(json.dumps(dict(spec=v["case"]["spec"], params=v["case"]["params"])))
+        if d:
+            print("VIOLATION-REPLAYED: simulate(absence=%s); remove_absence_time_list() differs from simulate() in %s" % (v["case"]["params"]["absence"], d[:8]))
+        return 1 if d else 0
+    if "ops" in v["case"] and "spec" in v["case"]:
+        from histories import run_history
+        from driver import Driver
+        with Driver() as drv:
+            h = run_history(v["case"]["spec"], v["case"]["ops"], drv)
+        print(json.dumps(dict(spec=v["case"]["spec"], ops=v["case"]["ops"]), default=str)[:4000])
+        for i, e in enumerate(h["exc"]):
+            if e:
+                print("EXCEPTION at op %d: %s" % (i, e))
+        for d in h["dis"] + [dict(structure=x) for x in h["structure"]]:
+            print("DISAGREEMENT:", d)
+        print("reported violation:", v.get("what"))
+        return 1 if (h["dis"] or h["structure"] or any(h["exc"])) else 0
     if "spec" not in v["case"] and "seed" not in v["case"]:
         print("this replay is a history/pure-function case; its full description:")
         print(json.dumps(v, indent=1, default=str)[:4000])
@@ -557,6 +577,36 @@ def with_statefn(inner, fns, quick, thorough):
     return run
 
 
+def with_decimal(inner, quick, thorough):
+    """append real-code-only runs off the dyadic grid (float residues), predicate in tolerance mode"""
+    def run(ctx):
+        inner(ctx)
+        res = simstream.run_stream(ctx.seed + 77, ctx.n(quick, thorough), "decimal", [ctx.pid], want_lockstep=False)
+        cnt = dict(cases=0, violations=0, exceptions=0)
+        for r in res:
+            if r.get("infra"):
+                ctx.infra.append("decimal case %d: %s" % (r["index"], r["infra"]))
+                continue
+            cnt["cases"] += 1
+            spec, params = simstream.make_case(ctx.seed + 77, r["index"], "decimal")
+            case = dict(stream="decimal", spec=spec, params=params)
+            if r["exc"] is not None:
+                cnt["exceptions"] += 1
+                ctx.violations.append(dict(property=ctx.pid, what="simulate raised %s" % r["exc"], case=case))
+            for v in r["viol"][:1]:
+                if v["what"].startswith("PREDICATE-CRASH"):
+                    ctx.infra.append("decimal case %d: %s" % (r["index"], v["what"]))
+                    continue
+                cnt["violations"] += 1
+                ctx.violations.append(dict(v, case=case))
+        ctx.evaluations += cnt["cases"]
+        ctx.distribution["off_grid_real_runs"] = cnt
+        ctx.rule += ("; plus real runs OFF the dyadic grid (work, progress, skills from 0.1/0.3/0.7/...: float residues), real code only, "
+                     "the predicate in tolerance mode (no work left = below 1e-12; the code documents 1e-10)")
+    return run
+
+
+REGISTRY["C06"]["run"] = with_decimal(REGISTRY["C06"]["run"], 150, 6000)
 REGISTRY["C04"]["run"] = with_statefn(REGISTRY["C04"]["run"], {"canAdd"}, 150, 6000)
 REGISTRY["C02"]["run"] = with_statefn(REGISTRY["C02"]["run"], {"contrib"}, 150, 6000)
 REGISTRY["C13"]["run"] = with_statefn(REGISTRY["C13"]["run"], {"canPut"}, 150, 6000)
